@@ -494,6 +494,11 @@ theorem get_none_of_not_mem {Val : Type} : ∀ {l : Env Val} {x : Str},
     have hk : k ≠ x := fun e => h.1 e.symm
     simp [Env.get, hk, ih h.2]
 
+theorem nodup_reverse {α : Type} {l : List α} (h : l.Nodup) : l.reverse.Nodup := by
+  unfold List.Nodup at *
+  rw [List.pairwise_reverse]
+  exact h.imp (fun h => Ne.symm h)
+
 theorem bindArgs_ok {Val : Type} (ps : List Str) (as : List Val) (h : ps.length = as.length) :
     bindArgs ps as = .ok (ps.zip as).reverse := by
   simp [bindArgs, h, foldl_set_eq]
